@@ -212,4 +212,18 @@ theorem runSnap_reach (n : Nat) (sh : Shared) (th : SnapTh) :
         Step.mk [] [] _ _ sh sh' sh.names (List.Perm.refl _) (by simp [Thread.step, h])
       exact Reach.trans (Reach.tail (Reach.refl _) hstep) (ih sh' th')
 
+theorem runCollect_reach (n : Nat) (sh : Shared) (th : CollectTh) :
+    Reach ⟨sh, [.collect th]⟩ ⟨(runCollect n sh th).1, [.collect (runCollect n sh th).2]⟩ := by
+  induction n generalizing sh th with
+  | zero => exact Reach.refl _
+  | succ n ih =>
+    cases h : th.step sh with
+    | none => simp only [runCollect, h]; exact Reach.refl _
+    | some r =>
+      obtain ⟨sh', th'⟩ := r
+      simp only [runCollect, h]
+      have hstep : Step ⟨sh, [] ++ Thread.collect th :: []⟩ ⟨sh', [] ++ Thread.collect th' :: []⟩ :=
+        Step.mk [] [] _ _ sh sh' sh.names (List.Perm.refl _) (by simp [Thread.step, h])
+      exact Reach.trans (Reach.tail (Reach.refl _) hstep) (ih sh' th')
+
 end SSV.Stats
